@@ -512,9 +512,79 @@ def discover_and_query(part):
         w.close()
     part.sample({'matrix': 'discover subsets / query orders', 'menu': [list(m) for m in menu]})
 
+def after_refusal(part):
+    """Version state across requests on ONE engine: an accepted request under version A, then a request
+    under version B that the header checks refuse (asynchronous indicator, Undo, stale time stamp), then
+    version-sensitive requests under B. Their answers must be those of a fresh engine on the same
+    store - the version that gates a request is the one it announces, whatever came before."""
+    BEO = E.BatchErrorContinuationOption
+    refusals = [('async', {'async_indicator': True}), ('undo', {'error_option': BEO.UNDO}),
+                ('stale', {'time_stamp': W.T0 - 10000}), ('none', None)]
+    probes = [('attr_list', lambda: W.p_get_attribute_list('1')),
+              ('get_attributes', lambda: W.p_get_attributes('1')),
+              ('create_sensitive', lambda: W.p_create(W.sym_attrs(sensitive=True))),
+              ('create_policy', lambda: W.p_create(W.sym_attrs(policy='default'))),
+              ('query', lambda: W.p_query([E.QueryFunction.QUERY_OPERATIONS])),
+              ('discover', lambda: W.p_discover())]
+    fresh = {}
+    for vb in W.VERSIONS:
+        for pname, pb in probes:
+            c = base().clone()
+            try:
+                W.CLOCK.now = W.T0 + 9
+                r = send(c, vb, pb())
+                fresh[(vb, pname)] = None if r is None else r.key()
+            finally:
+                c.close()
+    for va in W.VERSIONS:
+        for vb in W.VERSIONS:
+            if va == vb:
+                continue
+            for rname, hdr in refusals:
+                w = base().clone()
+                try:
+                    W.CLOCK.now = W.T0 + 7
+                    send(w, va, W.p_query([E.QueryFunction.QUERY_OPERATIONS]))
+                    if hdr is not None:
+                        W.CLOCK.now = W.T0 + 8
+                        try:
+                            rr = W.Resp(w.send_bytes(W.encode_request(W.build_request(vb, [W.p_locate()], **hdr)),
+                                                     user='alice'))
+                            if rr.items[0].ok():
+                                part.count('refusal_not_refused')
+                        except Exception:   # noqa
+                            pass
+                    for pname, pb in probes:
+                        if fresh[(vb, pname)] is None:
+                            continue
+                        c = w.clone() if pname.startswith('create') else w
+                        try:
+                            W.CLOCK.now = W.T0 + 9
+                            r = send(c, vb, pb())
+                        finally:
+                            if c is not w:
+                                c.close()
+                        part.count('requests')
+                        part.count('after_refusal_requests')
+                        same = r is not None and r.key() == fresh[(vb, pname)]
+                        part.counters.setdefault('_out', set()).add(('after-refusal', vb, pname, same))
+                        if not same:
+                            part.violation("version-state|%s|after-%s" % (pname, rname),
+                                           "%s under KMIP %d.%d after a request under %d.%d%s is answered %s, "
+                                           "not as on a fresh engine" % (
+                                               pname, vb[0], vb[1], va[0], va[1],
+                                               '' if hdr is None else " and a %d.%d request refused for '%s'" % (
+                                                   vb[0], vb[1], rname), r.brief() if r else None),
+                                           {'matrix': 'after_refusal', 'a': list(va), 'b': list(vb),
+                                            'refusal': rname, 'probe': pname})
+                finally:
+                    w.close()
+    part.sample({'matrix': 'after_refusal', 'refusals': [r[0] for r in refusals],
+                 'probes': [p[0] for p in probes]})
+
 
 PARTS = {'ops': op_matrix, 'unsupported': unsupported_versions, 'attributes': attribute_matrix,
-         'fields': field_matrix, 'discover': discover_and_query}
+         'fields': field_matrix, 'discover': discover_and_query, 'after_refusal': after_refusal}
 
 
 def _worker(task):
@@ -554,7 +624,9 @@ def run(tier, seed):
              "Register/Create/Locate supplying each version-sensitive attribute x 6 versions; every "
              "response tag against the tag/version table; KMIP 2.0-only request fields under earlier "
              "versions; DiscoverVersions with every subset of a 7-version menu (orders for k <= 3) x 5 "
-             "versions; Query(operations) x 6 versions in descending, ascending and zigzag order on one "
+             "versions; 30 ordered version pairs (A, B) x {no, 3 kinds of} header-refused request under B after an "
+             "accepted one under A, then 6 version-sensitive requests under B compared with a fresh engine; "
+             "Query(operations) x 6 versions in descending, ascending and zigzag order on one "
              "engine followed by one minimal request per advertised operation; the C13 request grid "
              "under the supported versions: every tag of every response against the tag-range/version "
              "rule, and every request re-sent in the KMIP 1.4 encoding under an earlier header when "
